@@ -38,8 +38,7 @@ def gen_case(seed, tier, index=0):
         prog['reloads'] = sorted(rr.sample(range(0, prog['k'] + 1), min(n, prog['k'] + 1)))
         return {'kind': 'loop', 'prog': prog, 'cycles': rr.choice([1, 1, 2, 4])}
     from checks import c15
-    pkg = c15.gen_flowir_package(rr, 0)
-    nodes = [c['name'] for c in pkg['doc']['components']]
+    pkg = c15.gen_dsl_package(rr, 0) if rr.random() < 0.25 else c15.gen_flowir_package(rr, 0)
     ops = []
     # (an in-memory edit of the replicated description is not stored by any public call, so the only stored
     # mutations of a package without loops are its creation options: platform, user variable files)
